@@ -210,6 +210,7 @@ def r_iter(ctx, rule='R-BQ-ITER'):
 def r_pack_bits(ctx, rule='R-BQ-PACK'):
     F = ctx.F
     vec_rules.bq_packer(ctx, rule)
+    vec_rules.bq_entry_points(ctx, rule)
     f = F.fn('unaligned_vector::binary_quantized::from_slice_non_optimized')
     if f is None:
         return
